@@ -2,6 +2,7 @@
 C03 — Boolean operations on automata compute the set-theoretic result.
 -/
 import Pfl.Proofs.FABase
+import Pfl.Proofs.FAEpsCopy
 namespace Pfl
 namespace ENFA
 variable {σ τ : Type} [DecidableEq σ] [DecidableEq τ]
@@ -9,12 +10,12 @@ variable {σ τ : Type} [DecidableEq σ] [DecidableEq τ]
 /-- renaming states by a function that is injective on the states in use keeps the language -/
 theorem mapStates_lang (A : ENFA σ) (hA : A.WF) (f : σ → τ)
     (hf : ∀ p ∈ A.states, ∀ q ∈ A.states, f p = f q → p = q) (w : List Nat) :
-    (A.mapStates f).Lang w ↔ A.Lang w := by
-  sorry
+    (A.mapStates f).Lang w ↔ A.Lang w :=
+  mapStates_lang' A hA f hf w
 
 theorem reverse_lang (A : ENFA σ) (hA : A.WF) (w : List Nat) :
-    A.reverse.Lang w ↔ A.Lang w.reverse := by
-  sorry
+    A.reverse.Lang w ↔ A.Lang w.reverse :=
+  reverse_lang' A hA w
 
 end ENFA
 end Pfl
